@@ -29,7 +29,9 @@ ASSUMPTIONS = [
 
 def compare(stream: bytes, cls: str, limits: dict | None = None) -> dict:
     ref_msgs, verdict = refhttp.strict_read(stream)
-    cuts = tuple(sorted({m.end for m in ref_msgs if 0 < m.end < len(stream)}))
+    # deliver message by message, and each head separately from its body: a message parsed in the same read as a later
+    # error is dropped with it, which would hide how its framing was read
+    cuts = tuple(sorted({m.end for m in ref_msgs if 0 < m.end < len(stream)} | {m.head_end for m in ref_msgs if m.head_end and 0 < m.head_end < len(stream)}))
     out = drive("request", stream, cuts, limits=limits or {}, feed_eof=False)
     info = {"verdict": verdict[0], "nref": len(ref_msgs), "stricter": False}
     if out.other_exc is not None:
